@@ -130,6 +130,28 @@ def model_phase(ctx, cfg, rounds):
             if r.table - prev not in (0, 1):
                 ctx.violation("state_jump", "table size jumped from %d to %d on one frame" % (prev, r.table), observed=r.table)
             prev = r.table
+        # "leave the connection table unchanged" is about the entries' content too: control segments (with or without
+        # payload, acknowledging anything) on the validated flows' own tuples, flow-less ICMP and UDP must leave every
+        # control block as it is (identified protocol, matcher state, parser kind - dumped through the hook)
+        if validated and rs and rs[-1].kind != "P" and rng.random() < 0.5:
+            d1 = ctx.driver().dump()
+            ctl = []
+            for (e, sp, dp, ck) in flows:
+                if (e.cip, e.sip, sp, dp) not in validated:
+                    continue
+                for fl in rng.sample([SYN, SYN | 0x40, SYN | PSH, RST, ACK, FIN | ACK, RST | ACK, FIN, 0, SYN | ACK], 4):
+                    ctl.append(e.tcp(sp, dp, rng.getrandbits(32), rng.choice([0, (ck + 1) & 0xFFFFFFFF, rng.getrandbits(32)]), fl,
+                                     rng.choice([b"", b"", b"\r\n", b"GET / HTTP/1.1\r\n"])))
+            ctl += [f for _n, f in rng.sample(gen.icmp_noise(rng, cfg), 6)]
+            ctl += [gen.endp(rng, cfg, rng.random() < 0.5).udp(gen.rnd_port(rng), gen.rnd_port(rng), u) for _n, u, _t in rng.sample(gen.app_requests(rng), 3)]
+            rng.shuffle(ctl)
+            ctx.send_many(ctl)
+            d2 = ctx.driver().dump()
+            ctx.stats["dump_comparisons"] += 1
+            if d1 != d2:
+                diff = sorted(set(d1.items()) ^ set(d2.items()))[:4]
+                ctx.violation("state_changed", "control / flow-less traffic changed the content of the connection table: %s" % (
+                    ", ".join("cookie %08x -> %s" % (c, v) for c, v in diff)), observed=repr(diff), expected="identical table dump")
         ctx.stats["model_scripts"] += 1
         ctx.stats["model_validations"] += len(validated)
 
